@@ -19,7 +19,7 @@ for d in sys.argv[1:]:
     sh(f"git checkout -q --detach {base}", WT)
     res["base_commit"] = base
     run = open(f"{d}/run.txt").read()
-    m = re.search(r"(?:<worktree>|/tmp/seed/c\d+)/(searchlite-\S+\.rs)", run)
+    m = re.search(r"(?:<worktree>|/tmp/seed/c\d+\w*)/(searchlite-\S+\.rs)", run)
     dest = m.group(1)
     feats = "--features vectors" if "--features vectors" in run else ""
     crate = dest.split("/")[0]
